@@ -51,3 +51,35 @@ Section Todecsci.
       destruct (feq (rd (fmt 16%Z v)) v) eqn:E16; [apply feq_spec in E16; contradiction|]. reflexivity.
   Qed.
 End Todecsci.
+
+(* ---- the ".0" rules ---- *)
+From C14 Require Import Model.
+Local Open Scope Z_scope.
+
+(* print's rule is Lua's rule for every text that %.14g can produce (non-empty, shorter than the buffer) *)
+Lemma print_dot0_eq_lua s : (0 < length s)%nat -> Z.of_nat (length s) + 2 < PRINT_BUF ->
+  nl_print_dot0 s = lua_add_dot0 s.
+Proof.
+  intros Hn Hb. unfold nl_print_dot0, lua_add_dot0.
+  assert (E : existsb (fun c => negb (is_int_char c)) s = negb (forallb is_int_char s)).
+  { clear. induction s as [|c r IH]; [reflexivity|]. cbn [existsb forallb]. rewrite IH.
+    destruct (is_int_char c); reflexivity. }
+  rewrite E, Bool.negb_involutive.
+  destruct (Z.ltb_spec 0 (Z.of_nat (length s))); [|lia].
+  destruct (Z.ltb_spec (Z.of_nat (length s) + 2) PRINT_BUF); [|lia].
+  rewrite !Bool.andb_true_r. reflexivity.
+Qed.
+
+(* after the forced fraction the emitted float literal never looks like a C integer constant
+   (which a following 'f' suffix would turn into a syntax error) *)
+Lemma force_fract_not_int_like s : int_like (nl_force_fract s) = false.
+Proof.
+  unfold nl_force_fract. destruct (int_like s) eqn:E; [|exact E].
+  assert (H : forall r, forallb is_digit_char (r ++ [46; 48]) = false).
+  { induction r as [|c r IH]; [reflexivity|]. cbn [app forallb]. rewrite IH. apply Bool.andb_false_r. }
+  destruct s as [|c r]; [discriminate|].
+  change ((c :: r) ++ [46; 48]) with (c :: (r ++ [46; 48])). unfold int_like.
+  destruct (c =? 45).
+  - rewrite H. apply Bool.andb_false_r.
+  - change (c :: r ++ [46; 48]) with ((c :: r) ++ [46; 48]). apply H.
+Qed.
